@@ -241,7 +241,9 @@ func c02Run(c *mon.Ctx, unit int) {
 			case obs.Verdict() != want.String():
 				fresh := lib.Validate(lib.Spec{Text: text}, doc)
 				if fresh.Verdict() == want.String() {
-					c.Inconclusive("verdict differed on a reused schema object but not on a fresh one (C11 territory)")
+					// the statement speaks of every document, whatever the schema object validated before
+					c.Violate("validate-reused", c02Case{text, doc}, want.String(), obs.String(),
+						"Validate verdict on a schema object used before differs from the scalar-rule oracle, a fresh object agrees ("+o.Why+")")
 				} else {
 					c.Violate("validate", c02Case{text, doc}, want.String(), fresh.String(),
 						"Validate verdict differs from the scalar-rule oracle ("+o.Why+")")
@@ -283,6 +285,7 @@ func init() {
 		Units: func(tier string, seed uint64) int { u, _ := c02Sizes(tier); return u + c02ExhUnits },
 		Run:   c02Run,
 		Replay: map[string]func(json.RawMessage) string{
+			"validate-reused": func(json.RawMessage) string { return "needs the history of the schema object: not replayable from the case alone" },
 			"validate": func(raw json.RawMessage) string {
 				var cs c02Case
 				json.Unmarshal(raw, &cs)
